@@ -33,7 +33,7 @@ def _execute_chunk(args):
     exe, cases, tag, k = args
     inp = "\n".join(case_line(c) for c in cases) + "\n"
     rows_path = os.path.join(vlib.tmpdir(), "c12_rows_%s_%d_%d.ndjson" % (tag, os.getpid(), k))
-    cmd = "exec 3>%s; %s 20 >/dev/null 2>&1" % (rows_path, exe)
+    cmd = "exec 3>%s; %s 180 >/dev/null 2>&1" % (rows_path, exe)
     import subprocess
     subprocess.run(["bash", "-c", cmd], input=inp.encode(), timeout=3600)
     rows = {}
@@ -80,6 +80,9 @@ def judge(res, cases, rows, tag, selftest=False):
         if r is None:
             bad.append((c, {"ret": None}, {"verdict": "?", "why": ["no row recorded"], "kind": "norow"}))
         elif not r.get("cfg"):
+            if r.get("before_call") and r.get("signal") == 14:
+                # the child's alarm fired before svt_av1_enc_set_parameter was even called (machine overloaded): not an observation
+                raise vlib.ModelFailure("param_replay timed out before calling set_parameter for: %s" % case_line(c))
             kind = "crash-before-call" if r.get("before_call") else "harness"
             bad.append((c, r, {"verdict": "?", "why": [kind], "kind": kind}))
         else:
